@@ -26,7 +26,7 @@ def sum_a_transform(inp, params):
     return jnp.concatenate([inp, jnp.reshape(jnp.sum(params.eq_params["a"]), (1,))])
 
 
-def ic_ode(m, with_param_batch, B=2):
+def ic_ode(m, with_param_batch, B=2, u0_int=False):
     def build():
         net = Net("Ni", "ODE", 1 + (1 if with_param_batch else 0), m,
                   input_transform=sum_a_transform if with_param_batch else None)
@@ -46,8 +46,8 @@ def ic_ode(m, with_param_batch, B=2):
             v = mean(per)
             return arr(lambda _: v * 2 if wrong else v, ())
         return dict(fn=fn, spec=spec, canary=lambda *x: spec(*x, wrong=True),
-                    inputs=[Inp("th", (1,)), Inp("t0", ()), Inp("u0", (m,)), Inp("w", ()), Inp("a", ()), Inp("acol", (B, 1))])
-    return EqObligation(f"C05/LossODE.evaluate/initial_condition[m={m},param_batch={int(with_param_batch)}]", build,
+                    inputs=[Inp("th", (1,)), Inp("t0", ()), Inp("u0", (m,), "int" if u0_int else "real"), Inp("w", ()), Inp("a", ()), Inp("acol", (B, 1))])
+    return EqObligation(f"C05/LossODE.evaluate/initial_condition[m={m},param_batch={int(with_param_batch)}{',u0=integer-typed' if u0_int else ''}]", build,
                         ["jinns.loss._LossODE:LossODE.evaluate"] +
                         (["jinns.parameters._params:_update_eq_params_dict", "jinns.parameters._params:_get_vmap_in_axes_params"] if with_param_batch else []))
 
@@ -173,6 +173,7 @@ def obligations(tier):
     for m in (1, 2):
         obs.append(ic_ode(m, False))
     obs.append(ic_ode(1, True))
+    obs.append(ic_ode(2, False, u0_int=True))      # integer-typed target values do not change where the network is evaluated
     Bs = (1, 2) if tier == "quick" else (1, 2, 3)
     for d in (1, 2):
         for B in Bs:
@@ -195,4 +196,16 @@ def obligations(tier):
         obs.append(observations(kind, 2, 3, slice(1, 3), slice(1, 2), "scalar", False))
         obs.append(observations(kind, 2, 2, slice(0, 2), slice(0, 1), "vec", True))
         obs.append(observations(kind, 2, 1, slice(0, 1), full, "scalar", False, valshape="1d"))
+    # separable networks: the same terms over the grid (the C11 contract, reported under C05)
+    from contracts import c11
+    extra = [c11.ic_ob(1, 1, 2, 1), c11.ic_ob(2, 1, 2, 1), c11.ic_ob(1, 2, 2, 2), c11.ic_ob(2, 2, 1, 2)]
+    for time in (False, True):
+        for dx in (1, 2):
+            extra.append(c11.norm_ob(time, dx, 1, 2, 2))
+    extra.append(c11.norm_ob(True, 1, 1, 4, 2))
+    if tier == "thorough":
+        extra.append(c11.norm_ob(True, 2, 1, 3, 2))
+    for o in extra:
+        o.name = o.name.replace("C11/", "C05/").replace("equals_pointwise_over_grid", "ensures.grid")
+        obs.append(o)
     return obs
